@@ -284,7 +284,12 @@ impl VrlValueArithmetic for Value {
         use Value::{Float, Integer};
 
         match self {
-            Integer(lhv) => rhs.try_into_f64().is_ok_and(|rhv| *lhv as f64 == rhv),
+            // Two integers are compared exactly; converting both to `f64` would make
+            // distinct integers above 2^53 compare equal.
+            Integer(lhv) => match rhs {
+                Integer(rhv) => lhv == rhv,
+                _ => rhs.try_into_f64().is_ok_and(|rhv| *lhv as f64 == rhv),
+            },
 
             Float(lhv) => rhs.try_into_f64().is_ok_and(|rhv| lhv.into_inner() == rhv),
 
